@@ -41,7 +41,10 @@ func (api API) ServeHTTP(w http.ResponseWriter, r *http.Request) {
 		status = http.StatusInternalServerError
 		newErr := errorForHTTPStatus(status)
 		newErr.Detail = err.Error()
-		body, _ = jsoniter.Marshal(newErr)
+		body, _ = jsoniter.Marshal(types.ResponseDocument{
+			Errors:  []types.Error{newErr},
+			JSONAPI: resp.Document.JSONAPI,
+		})
 	} else {
 		for k, v := range resp.Headers {
 			w.Header().Set(k, v)
